@@ -17,6 +17,8 @@ pub struct C17;
 
 pub fn random_cfg() -> Cfg {
     let mut c = Cfg::flow();
+    c.allow_input_x = true;
+    c.max_x = 2;
     c.max_virtual = 1;
     c.virtual_random = true;
     c.w_reset = 4;
@@ -77,8 +79,10 @@ fn plant(b: &mut Built, ch: &mut Ch) -> Plan {
                 Stmt::Row(id, es) | Stmt::Repeat(_, id, es) => {
                     let vp = ch.chance(1, 2);
                     let bp = ch.chance(1, 3);
-                    if vp || bp {
-                        // one evaluation = one item: no X / C in input columns of this row
+                    // In half of the probed rows X / C entries are replaced (one evaluation = one
+                    // item); in the others they stay: all items of one evaluation then show the
+                    // same drawn value, and the draws are counted per evaluation.
+                    if (vp || bp) && ch.chance(1, 2) {
                         let mut col = 3;
                         for e in es.iter_mut() {
                             let w = e.width();
@@ -163,7 +167,7 @@ impl Property for C17 {
         "C17"
     }
     fn rule(&self) -> &'static str {
-        "profile `random`: flow programs with random(e) in row entries, let, bounds, ite conditions and branches, nested in its own argument, in a virtual signal; bounds >= 2 by construction (2, small, (e&7)+2, 2^k up to 2^62); resetRandom at any statement position; seeds {0, 1, u64::MAX, random} forced through the seed hook; planted probes: `(random(B_r))` in a 64-bit input and `bits(2, random(B_r+1))` in two 1-bit inputs with a bound unique to the source row r (such rows have no X/C, so one evaluation is one item), `declare VR = random(999983)`, a body-less `loop(ez, (random(700001) & 1))` as first statement (its bound is evaluated once on entry: exactly one draw with that bound), a `while` counting a variable down from 2 whose condition draws (evaluated for 2, 1, 0: exactly three draws), and random(7919) in unselected branches of constant-condition ite. Oracle (self-consistent, on the crate's own event log): every random evaluation is exactly one generator draw (GenDraw, Draw pairs), 0 <= value < bound; after every Reset the values repeat those drawn from the start of the run over the longest common prefix of the bound sequences; the same seed gives the same log; no draw with bound 7919 (lazy ite); for each probed row the number of draws with its bound equals the number of its items, and each item shows exactly the drawn value (resp. its two low bits): one draw per evaluation, used as if it were a literal; VR is drawn once per checked row and shows the drawn value; and a straight-line control program that performs the same sequence of random(bound) / resetRandom with the same seed draws exactly the same values (the draws are those of the run's generator, in order). In a third of the cases two or three iterators over the same test are alive at once and stepped alternately by a generated schedule (same seed, same script): each yields exactly the items of the run on its own (every run has its own generator). Non-trivial: >= 2 draws and (a reset followed by a draw, or a checked probe, or a lazy sentinel present); distinct by source + signals + driver + seed."
+        "profile `random`: flow programs with random(e) in row entries, let, bounds, ite conditions and branches, nested in its own argument, in a virtual signal; bounds >= 2 by construction (2, small, (e&7)+2, 2^k up to 2^62); resetRandom at any statement position; seeds {0, 1, u64::MAX, random} forced through the seed hook; planted probes: `(random(B_r))` in a 64-bit input and `bits(2, random(B_r+1))` in two 1-bit inputs with a bound unique to the source row r (half of such rows keep their X/C entries: the g items of one evaluation then all show the one value drawn for it), `declare VR = random(999983)`, a body-less `loop(ez, (random(700001) & 1))` as first statement (its bound is evaluated once on entry: exactly one draw with that bound), a `while` counting a variable down from 2 whose condition draws (evaluated for 2, 1, 0: exactly three draws), and random(7919) in unselected branches of constant-condition ite. Oracle (self-consistent, on the crate's own event log): every random evaluation is exactly one generator draw (GenDraw, Draw pairs), 0 <= value < bound; after every Reset the values repeat those drawn from the start of the run over the longest common prefix of the bound sequences; the same seed gives the same log; no draw with bound 7919 (lazy ite); for each probed row the number of draws with its bound equals the number of its evaluations (items / g, the last one possibly cut by the cap), and each item shows exactly the value drawn for its evaluation (resp. its two low bits): one draw per evaluation, used as if it were a literal; VR is drawn once per checked row and shows the drawn value; and a straight-line control program that performs the same sequence of random(bound) / resetRandom with the same seed draws exactly the same values (the draws are those of the run's generator, in order). In a third of the cases two or three iterators over the same test are alive at once and stepped alternately by a generated schedule (same seed, same script): each yields exactly the items of the run on its own (every run has its own generator). Non-trivial: >= 2 draws and (a reset followed by a draw, or a checked probe, or a lazy sentinel present); distinct by source + signals + driver + seed."
     }
     fn cases(&self, tier: Tier) -> u64 {
         match tier {
@@ -172,7 +176,7 @@ impl Property for C17 {
         }
     }
     fn required_classes(&self) -> Vec<&'static str> {
-        vec!["draws>=2", "reset-then-draw", "bound=2", "bound>=2^32", "virtual-probe-checked", "seed=0", "seed=max", "replayed-prefix>=2", "value-probe-checked", "bits-probe-checked", "lazy-sentinel-planted", "probe-in-loop", "control-program-compared", "planted-reset-checked", "empty-loop-bound-draw-checked", "while-condition-draws-checked", "interleaved-iterators-compared"]
+        vec!["draws>=2", "reset-then-draw", "bound=2", "bound>=2^32", "virtual-probe-checked", "seed=0", "seed=max", "replayed-prefix>=2", "value-probe-checked", "bits-probe-checked", "lazy-sentinel-planted", "probe-in-loop", "control-program-compared", "planted-reset-checked", "empty-loop-bound-draw-checked", "while-condition-draws-checked", "interleaved-iterators-compared", "probe-in-expanded-row"]
     }
     fn run(&self, s: &Streams) -> CaseOut {
         let mut out = CaseOut::new();
@@ -371,9 +375,13 @@ impl Property for C17 {
         if clean {
             for rid in &plan.value_probe {
                 let shown: Vec<i64> = row_items.iter().filter(|r| tag_of(r) == Some(*rid)).filter_map(|r| get(r, "RP0")).collect();
-                let drawn: Vec<i64> = all.iter().filter(|(b, _)| *b == probe_bound(*rid) as i64).map(|(_, v)| *v).collect();
+                let drawn1: Vec<i64> = all.iter().filter(|(b, _)| *b == probe_bound(*rid) as i64).map(|(_, v)| *v).collect();
+                // one evaluation yields `group` items (X / C expansion), all from one draw
+                let g = rows.get(rid).map(|i| i.group.max(1)).unwrap_or(1);
+                let drawn: Vec<i64> = drawn1.iter().flat_map(|v| std::iter::repeat(*v).take(g)).take(shown.len().max(drawn1.len().saturating_sub(1) * g + 1).min(drawn1.len() * g)).collect();
                 if !shown.is_empty() {
                     out.class("value-probe-checked");
+                    out.class_if(g > 1, "probe-in-expanded-row");
                     out.class_if(rows.get(rid).map(|i| i.depth > 0).unwrap_or(false), "probe-in-loop");
                 }
                 if shown != drawn {
@@ -397,7 +405,9 @@ impl Property for C17 {
                     .filter(|r| tag_of(r) == Some(*rid))
                     .filter_map(|r| Some((get(r, "RB0")?, get(r, "RB1")?)))
                     .collect();
-                let drawn: Vec<(i64, i64)> = all.iter().filter(|(b, _)| *b == bits_bound(*rid) as i64).map(|(_, v)| ((v >> 1) & 1, v & 1)).collect();
+                let drawn1: Vec<(i64, i64)> = all.iter().filter(|(b, _)| *b == bits_bound(*rid) as i64).map(|(_, v)| ((v >> 1) & 1, v & 1)).collect();
+                let g = rows.get(rid).map(|i| i.group.max(1)).unwrap_or(1);
+                let drawn: Vec<(i64, i64)> = drawn1.iter().flat_map(|v| std::iter::repeat(*v).take(g)).take(shown.len().max(drawn1.len().saturating_sub(1) * g + 1).min(drawn1.len() * g)).collect();
                 if !shown.is_empty() {
                     out.class("bits-probe-checked");
                 }
